@@ -94,6 +94,29 @@ Proof.
 Qed.
 Print Assumptions c01_equiv_indistinguishable.
 
+(** Any number of crashes: a history adds blocks and, at arbitrary places, dies at an arbitrary
+    point while adding a block and reopens the directory. Every reopening succeeds and the final
+    ledger is observationally equal to an uncrashed run that applied every added block and, of the
+    blocks during which the process died, some and not others ([kept]). *)
+Theorem c01_recover_history :
+  forall (hc : hash -> hash -> hash) (hempty : hash) (shh : N)
+         (exec : sstore -> blk -> option xres) (hdr_ok : blk -> blk -> bool),
+    (forall a b, len32 (hc a b)) ->
+  forall (l0 : ledger) (h : list hevent),
+    consistent_b shh l0 = true -> chain_bound l0 (length h) -> Forall wf_blk (map hblk h) ->
+    exists lf bs,
+      run_hist hc hempty shh exec hdr_ok l0 h = Ok lf /\ kept h bs /\
+      equiv lf (run hc hempty shh exec hdr_ok l0 bs) /\
+      observe hc hempty shh lf = observe hc hempty shh (run hc hempty shh exec hdr_ok l0 bs).
+Proof.
+  intros hc hempty shh exec hdr_ok Hhc l0 h Hc B W.
+  pose proof (consistent_b_sound shh l0 Hc) as C.
+  destruct (recover_history hc hempty shh exec hdr_ok Hhc h l0 l0 C C
+              (equiv_refl hc hempty shh Hhc l0 C) B W) as (lf & bs & Hr & Hk & E).
+  exists lf, bs. split; [exact Hr|]. split; [exact Hk|]. split; [exact E|apply observe_equiv; exact E].
+Qed.
+Print Assumptions c01_recover_history.
+
 (** The arithmetic facts about the generated loop of [recoverStore] on which the case analysis
     rests: with the state store one block behind, the loop body runs exactly once and loads the
     block at stateHeight+1; with both at the same height it does not run. (With the loop of the
